@@ -120,6 +120,57 @@ class Path:
                 return p
         return None
 
+    def implied_literals(self, max_atoms: int = 10) -> set[tuple[str, bool]]:
+        """(atom text, truth) for every atomic test whose truth follows from ALL decisions of this path
+        together - a finite truth table over the atoms of the path's tests (and / or / not structure kept,
+        atoms in canonical polarity).  After `if A and B: raise` `elif A and not B: raise` `elif not A and B:
+        raise` the fall-through path implies (A, False) and (B, False) although no single test says so."""
+        import itertools
+
+        atoms: list[str] = []
+
+        def build(t, pol):
+            while isinstance(t, ast.UnaryOp) and isinstance(t.op, ast.Not):
+                t, pol = t.operand, not pol
+            if isinstance(t, ast.BoolOp):
+                subs = [build(v, True) for v in t.values]
+                node = ("and" if isinstance(t.op, ast.And) else "or", subs)
+                return node if pol else ("not", [node])
+            ct, cp = canon_test(t, True)
+            txt = norm(ct)
+            if txt not in atoms:
+                atoms.append(txt)
+            lit = ("atom", txt)
+            return lit if (cp == pol) else ("not", [lit])
+
+        forms = [build(t, p) for t, p in self.conds]
+        if not atoms or len(atoms) > max_atoms:
+            return set()
+
+        def ev(f, asg):
+            k, a = f
+            if k == "atom":
+                return asg[a]
+            if k == "not":
+                return not ev(a[0], asg)
+            if k == "and":
+                return all(ev(x, asg) for x in a)
+            return any(ev(x, asg) for x in a)
+
+        sat = []
+        for bits in itertools.product((False, True), repeat=len(atoms)):
+            asg = dict(zip(atoms, bits))
+            if all(ev(f, asg) for f in forms):
+                sat.append(asg)
+        out = set()
+        if not sat:
+            return out
+        for a in atoms:
+            vals = {asg[a] for asg in sat}
+            if len(vals) == 1:
+                out.add((a, vals.pop()))
+        return out
+
     def extends(self, name: str) -> list[ast.expr]:
         return [e.value for e in self.effects if e.kind == "extend" and e.target == name]
 
